@@ -81,8 +81,6 @@ theorem all_filled_unblocks_w_partial (pol : Policy) (tun : Tuning) (ops : List 
     rw [← hrel.pipe i v hv, absW_live g i v hv]
     simp only [pipeHistory, h2, List.map_append]
 
-theorem rel_self (g : GW) : Rel g g.pw := ⟨fun _ _ _ => rfl, rfl, rfl⟩
-
 /-- A byte, once observed, never changes — whatever happens to the other objects of the world.  See the
 file header. -/
 theorem observed_bytes_immutable_w_partial {g g' : GW} {caps : Nat → Nat} (hg : GReach g.w caps) (hall : AllInv g.w)
